@@ -18,7 +18,13 @@ else:
     p = subprocess.run(["/verif/seedtest.sh", pid, d + "/patch.diff"], stdout=-1, stderr=subprocess.STDOUT, text=True)
     out = p.stdout
     m = re.search(r"seedtest rc=(\d+)", out); rc = int(m.group(1)) if m else -1
-sigs = sorted(set(re.findall(r"^VIOLATION property=\S+ replay=\S+\s+# (\S+?): ", out, re.M)))
+sigs = set()
+for rp in re.findall(r"^VIOLATION property=\S+ replay=(\S+)", out, re.M):
+    try:
+        sigs.add(json.load(open(rp))["sig"])
+    except Exception:
+        pass
+sigs = sorted(sigs)
 meta = json.load(open(d + "/meta.json"))
 old = meta.get("detected_by", "")
 first_missed = ("MISSED" in old) or meta.get("first_missed", False)
